@@ -274,7 +274,9 @@ Inductive op : Type :=
 | OBurnTx (u den : string) (amt : Z) (registered : bool) (* MsgMintBurnTx: through the module account *)
 | OMintFt (u : string) (fresh : bool)                    (* MsgMintCreateFtTx: the fee goes through the module account *)
 | OJoinVerifier (u interx n : string)                    (* MsgJoinDappVerifierWithBond *)
-| OUpsert (n : string) (total status ctime : Z) (p : dparams) (ptime liq : Z)   (* passed ProposalUpsertDapp *)
+| OUpsert (n : string) (total status ctime : Z) (p : dparams) (ptime liq : Z) (allowed : bool) (fa : Z)
+    (* ProposalUpsertDapp through the gov flow; [allowed]: a controller can propose it; [fa]: the pool fee READ BACK
+       from the stored record afterwards -- the model follows it, the correspondence compares it with [upsert_fee] *)
 | KForce (n : string) (status ptime liq : Z).            (* keeper SetDapp: status / PremintTime / LiquidationStart *)
 
 (* ---------------------------------------------------------------- other layer2 messages through the module account *)
@@ -308,15 +310,19 @@ Definition join_verifier (c : config) (st : state) (u interx n : string) : outco
     Ok (mkState (now st) (dapps st) (bonds st) (set_bal (VF n) u 1 l1))
   end.
 (* ApplyUpsertDappProposal *)
-Definition upsert (v : variant) (st : state) (n : string) (total status ctime : Z) (p : dparams) (ptime liq : Z) : outcome state :=
+(* the pool fee the handler is expected to store *)
+Definition upsert_fee (v : variant) (d : dapp) (p : dparams) : Z := if v_upsert_raw v then p_fee p else d_fee d.
+Definition upsert (v : variant) (st : state) (n : string) (total status ctime : Z) (p : dparams) (ptime liq : Z)
+                  (allowed : bool) (fa : Z) : outcome state :=
   match get_dapp n st with
   | None => Err "dapp does not exist"
   | Some d =>
+    if negb allowed then Err "not enough permission to create the proposal" else
     if (x_bv (d_x d) && negb (p_bv p))%bool then Err "can not disable bonded verifiers" else
     let d' := if v_upsert_raw v
-              then mkDapp n total status ctime (p_lp p) (p_lp_ok p) (p_ratio p) (p_premint p) (p_postmint p) (p_fee p) (p_team p)
+              then mkDapp n total status ctime (p_lp p) (p_lp_ok p) (p_ratio p) (p_premint p) (p_postmint p) fa (p_team p)
                           (mkX ptime (p_drip p) liq (p_bv p))
-              else mkDapp n (d_total d) (d_status d) (d_ctime d) (p_lp p) (p_lp_ok p) (p_ratio p) (p_premint p) (p_postmint p) (d_fee d) (d_team d)
+              else mkDapp n (d_total d) (d_status d) (d_ctime d) (p_lp p) (p_lp_ok p) (p_ratio p) (p_premint p) (p_postmint p) fa (d_team d)
                           (mkX (x_ptime (d_x d)) (p_drip p) (x_liq (d_x d)) (p_bv p)) in
     Ok (mkState (now st) (set_dapp d' (dapps st)) (bonds st) (led st))
   end.
@@ -332,7 +338,7 @@ Definition step (v : variant) (c : config) (st : state) (o : op) : outcome state
   | OBurnTx u den amt registered => burn_tx st u den amt registered
   | OMintFt u fresh => mint_ft c st u fresh
   | OJoinVerifier u interx n => join_verifier c st u interx n
-  | OUpsert n total status ctime p ptime liq => upsert v st n total status ctime p ptime liq
+  | OUpsert n total status ctime p ptime liq allowed fa => upsert v st n total status ctime p ptime liq allowed fa
   | KForce n status ptime liq => force st n status ptime liq
   | OCreate u priv foreign n amt p => create v c st u priv foreign n amt p
   | OBond u n foreign amt => bond c st u n foreign amt
@@ -360,7 +366,7 @@ Definition is_user_op (o : op) : bool :=
 Definition is_msg_op (o : op) : bool :=
   match o with
   | OCreate _ _ _ _ _ _ | OBond _ _ _ _ | OReclaim _ _ _ _ | OTick _ | OLpMsg _ _ _ _ _ _
-  | OSetCfg _ | OBurnTx _ _ _ _ | OMintFt _ _ | OJoinVerifier _ _ _ | OUpsert _ _ _ _ _ _ _ => true
+  | OSetCfg _ | OBurnTx _ _ _ _ | OMintFt _ _ | OJoinVerifier _ _ _ | OUpsert _ _ _ _ _ _ _ _ _ => true
   | _ => false end.
 (* the configuration in force after an operation *)
 Definition cfg_after (c : config) (o : op) : config := match o with OSetCfg c' => c' | _ => c end.
